@@ -175,6 +175,12 @@ discipline of a member comes from (what the code and its comments say it intends
   queue/count/buffers are `GUARDED_BY(mutex_)` in the headers; `running_` flags are tested outside the
   lock by the worker/back-end thread: atomic (F5 for `ThreadPool`); `threads_`/`thread_` belong to the
   single owner that calls `start()/stop()`.
+  `CountDownLatch::condition_` is `guarded "mutex_"`, not merely `sync`: a latch is routinely destroyed by its
+  waiter as soon as `wait()` returns (`CountDownLatch done(1); …; done.wait();` on a stack frame), and `wait()` can
+  return as soon as the count is 0 and the mutex is free — so the notification in `countDown()` has to be issued
+  while `mutex_` is held, or it runs on a destroyed condition variable (seeded change C08-w5m2; TSan scenario
+  `CountDownLatch::shortlived`).  The queues' and the pool's condition variables stay `sync`: those objects
+  outlive their users' calls by contract.
 * `Logging` — the globals `g_logLevel`, `g_output`, `g_flush`, `g_logTimeZone` are configured before
   threads log (documented usage) and only read by the `LOG_*` path; `g_logTimeZoneGen` (fab6852) is the
   generation counter `setTimeZone` bumps and every logging thread compares with its cached value:
@@ -244,7 +250,7 @@ def policies : List ClassPolicy := open Policy in [
   { cls := "BoundedBlockingQueue", ownerChecks := [], setup := [], notThreadSafe := [],
     fields := [("mutex_", sync), ("notEmpty_", sync), ("notFull_", sync), ("queue_", guarded "mutex_")] },
   { cls := "CountDownLatch", ownerChecks := [], setup := [], notThreadSafe := [],
-    fields := [("mutex_", sync), ("condition_", sync), ("count_", guarded "mutex_")] },
+    fields := [("mutex_", sync), ("condition_", guarded "mutex_"), ("count_", guarded "mutex_")] },
   { cls := "AsyncLogging", ownerChecks := [], setup := [], notThreadSafe := [],
     fields := [("flushInterval_", immutable), ("running_", atomic), ("basename_", immutable),
       ("rollSize_", immutable), ("thread_", owner), ("latch_", sync), ("mutex_", sync), ("cond_", sync),
